@@ -497,3 +497,70 @@ pub fn stage_inputs(path: &str) {
         rid += 1;
     }
 }
+
+/// possible_intersection on random FLOAT segment pairs whose meeting point is at, or within a
+/// few ulps of, an end point of the second segment (T-touches and near-misses in general
+/// position), plus plain crossings. Only float-decidable facts are recorded: return code,
+/// number of new events, number of distinct (bitwise) new points, containment in both boxes.
+pub fn float_pi(count: u64, seed: u64) {
+    let mut rng = Rng::new(seed);
+    let mut unit = || -> f64 { (rng.next_u64() >> 11) as f64 / (1u64 << 53) as f64 };
+    for id in 1..=count {
+        let (ax1, ay1) = (unit() * 4.0 - 5.0, unit() * 20.0 - 10.0);
+        let (ax2, ay2) = (ax1 + 1.0 + unit() * 6.0, unit() * 20.0 - 10.0);
+        let mode = (unit() * 6.0) as u32;
+        let t = match mode { 0 => unit() * 1e-3, 1 => 1.0 - unit() * 1e-3, _ => 0.05 + unit() * 0.9 };
+        let (mut px, mut py) = (ax1 + t * (ax2 - ax1), ay1 + t * (ay2 - ay1));
+        // nudge by a few ulps
+        let nud = |v: f64, k: i64| f64::from_bits((v.to_bits() as i64 + k) as u64);
+        if mode != 5 {
+            px = nud(px, (unit() * 5.0) as i64 - 2);
+            py = nud(py, (unit() * 5.0) as i64 - 2);
+        }
+        let left_at_p = unit() < 0.5;
+        let (qx, qy) = if mode == 5 {
+            // plain crossing: b passes through p
+            (px + 0.7 + unit() * 3.0, py + (unit() - 0.5) * 12.0)
+        } else if left_at_p {
+            (px + 0.6 + unit() * 4.0, py + (unit() - 0.5) * 12.0)
+        } else {
+            (px - 0.6 - unit() * 4.0, py + (unit() - 0.5) * 12.0)
+        };
+        let (b1, b2) = if mode == 5 {
+            ((2.0 * px - qx, 2.0 * py - qy), (qx, qy))
+        } else if left_at_p {
+            ((px, py), (qx, qy))
+        } else {
+            ((qx, qy), (px, py))
+        };
+        let sa = unit() < 0.5;
+        let swap = unit() < 0.5;
+        let c = |p: (f64, f64)| Coord { x: p.0, y: p.1 };
+        let mk = |p: (f64, f64), q: (f64, f64), subj: bool, cid: u32| {
+            let r = SweepEvent::new_rc(cid, c(q), false, Weak::new(), subj, true);
+            let l = SweepEvent::new_rc(cid, c(p), true, Rc::downgrade(&r), subj, true);
+            r.set_other_event(&l);
+            (l, r)
+        };
+        let (la, ra) = mk((ax1, ay1), (ax2, ay2), sa, 1);
+        let (lb, rb) = mk(b1, b2, !sa, 2);
+        let mut q: BinaryHeap<Rc<SweepEvent<f64>>> = BinaryHeap::new();
+        let r = std::panic::catch_unwind(std::panic::AssertUnwindSafe(|| if swap { possible_intersection(&lb, &la, &mut q) } else { possible_intersection(&la, &lb, &mut q) }));
+        let code: i64 = r.map(|c| c as i64).unwrap_or(-1);
+        let pushed: Vec<Rc<SweepEvent<f64>>> = q.into_sorted_vec();
+        let mut pts: Vec<(u64, u64)> = pushed.iter().map(|e| (e.point.x.to_bits(), e.point.y.to_bits())).collect();
+        pts.sort();
+        pts.dedup();
+        let inb = |e: &Rc<SweepEvent<f64>>, p: (f64, f64), q: (f64, f64)| e.point.x >= p.0.min(q.0) && e.point.x <= p.0.max(q.0) && e.point.y >= p.1.min(q.1) && e.point.y <= p.1.max(q.1);
+        let inbox = pushed.iter().all(|e| inb(e, (ax1, ay1), (ax2, ay2)) && inb(e, b1, b2));
+        // the documented one-ulp bump of divide_segment (a division point sharing x with the left end
+        // point of the segment being divided is moved to the next float): two points (x, y), (x+ulp, y)
+        let lx = [la.point.x.to_bits(), lb.point.x.to_bits()];
+        let bump = pts.len() == 2 && pts[0].1 == pts[1].1 && pts[1].0 == pts[0].0 + 1 && (lx.contains(&pts[0].0) || lx.contains(&pts[1].0));
+        let linked = [&la, &ra, &lb, &rb].iter().all(|e| e.get_other_event().map(|o| o.get_other_event().map(|oo| Rc::ptr_eq(&oo, e)).unwrap_or(false)).unwrap_or(false));
+        println!(
+            "{{\"id\":{},\"mode\":{},\"swap\":{},\"a\":[[\"{:e}\",\"{:e}\"],[\"{:e}\",\"{:e}\"]],\"b\":[[\"{:e}\",\"{:e}\"],[\"{:e}\",\"{:e}\"]],\"code\":{},\"npushed\":{},\"npoints\":{},\"inbox\":{},\"linked\":{},\"bump\":{}}}",
+            id, mode, swap, ax1, ay1, ax2, ay2, b1.0, b1.1, b2.0, b2.1, code, pushed.len(), pts.len(), inbox, linked, bump
+        );
+    }
+}
